@@ -8,10 +8,10 @@ import docs
 
 LEAN_MODULES = ['GoSnaps.Props.C16']
 
-LEAVES = ['a', 's', 'o.x', 'o.y.0', 'l.0.k', 'n', 'deep.er.est']
-BASE = {'a': 1, 's': 'str', 'o': {'x': True, 'y': [1, 2]}, 'l': [{'k': 'v'}], 'n': 'nn', 'deep': {'er': {'est': 5}}}
+LEAVES = ['big', 'a', 's', 'o.x', 'o.y.0', 'l.0.k', 'n', 'deep.er.est']
+BASE = {'big': 1585369512231022593, 'a': 1, 's': 'str', 'o': {'x': True, 'y': [1, 2]}, 'l': [{'k': 'v'}], 'n': 'nn', 'deep': {'er': {'est': 5}}}
 YLEAVES = ['a', 's', 'o.x', 'flag']
-YBASE = {'a': 1, 's': 'str', 'o': {'x': 'xx'}, 'flag': False}
+YBASE = {'big': 1585369512231022593, 'a': 1, 's': 'str', 'o': {'x': 'xx'}, 'flag': False}
 
 
 def setp(d, path, v):
@@ -29,7 +29,7 @@ def yaml_of(d):
     return 'a: %s\ns: %s\no:\n  x: %s\nflag: %s\n' % (d['a'], d['s'], d['o']['x'], str(d['flag']).lower())
 
 
-NEWVALS = [7, 'changed', 'é', 'x"y', 123456, 'a much longer value than before', '']
+NEWVALS = [7, 'changed', 'é', 'x"y', 123456, 'a much longer value than before', '', None, 1585369512231022593, 1585369512231022594, 1.0, False]
 
 
 def make_world(g, tag):
@@ -39,9 +39,16 @@ def make_world(g, tag):
     masked = r.sample(leaves, r.randint(1, 3))
     changed = r.sample(leaves, r.randint(1, 2)) if r.random() < 0.8 else []
     a, b = copy.deepcopy(base), copy.deepcopy(base)
+    def getp(d, path):
+        cur = d
+        for k in path.split('.'):
+            cur = cur[int(k)] if isinstance(cur, list) else cur[k]
+        return cur
     for p in changed:
-        nv = r.choice(NEWVALS if kind != 'yaml' else ['changed', 'other', 'z9'])
-        setp(b, p, nv)
+        old = getp(b, p)
+        cands = [v for v in (NEWVALS if kind != 'yaml' else ['changed', 'other', 'z9'])
+                 if not (v == old and type(v) == type(old))]
+        setp(b, p, r.choice(cands))
     only_masked = all(p in masked for p in changed)
     if kind == 'yaml':
         ta, tb = yaml_of(a), yaml_of(b)
